@@ -205,13 +205,19 @@ func TestVerif_C33_GCS(t *testing.T) {
 	fake := &zc33FakeGCS{}
 	t.Setenv("STORAGE_EMULATOR_HOST", "gcs.invalid:9") // NewGCSStorage: no credential lookup, nothing is dialled
 	t.Setenv("GCE_METADATA_HOST", "metadata.invalid:9")
-	tmpl := map[string]*GCSStorage{}
+	// TWO handles per prefix, each from its own constructor call, same bucket and prefix: uploads
+	// of one execution go through either of them, keys must be distinct across both.
+	tmpl := map[string][2]*GCSStorage{}
 	for _, p := range []string{"", "p/"} {
-		st, err := NewGCSStorage("bkt", GCSConfig{Prefix: p})
-		if err != nil {
-			t.Fatalf("NewGCSStorage: %v", err)
+		var pair [2]*GCSStorage
+		for h := range pair {
+			st, err := NewGCSStorage("bkt", GCSConfig{Prefix: p})
+			if err != nil {
+				t.Fatalf("NewGCSStorage: %v", err)
+			}
+			pair[h] = st
 		}
-		tmpl[p] = st
+		tmpl[p] = pair
 	}
 	t.Setenv("STORAGE_EMULATOR_HOST", "")
 	key, err := rsa.GenerateKey(rand.Reader, 1024) // throw-away; only signs URLs nobody fetches
@@ -230,10 +236,9 @@ func TestVerif_C33_GCS(t *testing.T) {
 	defer client.Close()
 
 	cfgs := zc33Configs()
-	maxN := venum.QT(3, 5)
 	base := time.Unix(1_700_000_000, 0).UTC()
 
-	venum.Explore(t, venum.Cfg{Name: "gcs-upload-sequences", Shardable: true, DevBound: -1, CheckDeterminism: true}, func(x *venum.X) {
+	body := func(x *venum.X, twoHandles bool, maxN int) {
 		cfg := cfgs[x.Choose(len(cfgs), "config(entropy-stream x encodings x prefix)")]
 		n := 1 + x.Choose(maxN, "uploads")
 
@@ -243,9 +248,14 @@ func TestVerif_C33_GCS(t *testing.T) {
 		stream := &zc33Stream{Pos: cfg.pos}
 		uuid.SetRand(stream)
 		defer uuid.SetRand(nil)
-		stv := *tmpl[cfg.prefix] // fresh value per execution (the type holds no mutable state)
-		st := &stv
-		st.client = client
+		// fresh values per execution (copies of the constructor results, so per-handle state such
+		// as a sequence counter starts from its initial value in every execution)
+		handles := [2]*GCSStorage{}
+		for h := range handles {
+			cp := *tmpl[cfg.prefix][h]
+			handles[h] = &cp
+			handles[h].client = client
+		}
 		wantPrefix := cfg.prefix
 		if wantPrefix == "" {
 			wantPrefix = "vgi-rpc/"
@@ -255,10 +265,18 @@ func TestVerif_C33_GCS(t *testing.T) {
 			at     time.Time
 			key    string
 			blocks int // entropy blocks read while this upload ran
+			handle int
 		}
 		var ups []up
 		var exts []string
 		for i := 0; i < n; i++ {
+			// which handle performs upload i; the first upload is always handle 0 (the two handles
+			// are interchangeable, so this loses nothing)
+			h := 0
+			if twoHandles && i > 0 {
+				h = x.Choose(2, fmt.Sprintf("handle-of-upload-%d", i))
+			}
+			st := handles[h]
 			d := x.Deviate(len(zc33Steps), fmt.Sprintf("clock-before-upload-%d", i))
 			vsched.Advance(zc33Steps[d])
 			payload := "same-payload" // identical data is the worst case for a key derived from the data
@@ -281,7 +299,7 @@ func TestVerif_C33_GCS(t *testing.T) {
 			if pu, perr := url.Parse(u); perr != nil || strings.TrimPrefix(pu.Path, "/bkt/") != o.Name {
 				x.Note("upload %d: signed URL %q does not name object %q", i, u, o.Name)
 			}
-			ups = append(ups, up{at: vsched.Now(), key: o.Name, blocks: stream.blocks - b0})
+			ups = append(ups, up{at: vsched.Now(), key: o.Name, blocks: stream.blocks - b0, handle: h})
 			ext := "other"
 			for _, e := range []string{".arrow.zst", ".arrow"} {
 				if strings.HasSuffix(o.Name, e) {
@@ -316,9 +334,12 @@ func TestVerif_C33_GCS(t *testing.T) {
 						class = "no-entropy-read:same-microsecond"
 					}
 				}
+				if ups[i].handle != ups[j].handle {
+					class = "two-handles:" + class
+				}
 				x.Failf("C33:gcs:key-reused:"+class,
-					"uploads #%d and #%d (clock readings %d ns apart, entropy blocks read %d and %d, stream %s) both wrote object %q: upload #%d overwrote the object written by upload #%d",
-					i, j, ups[j].at.Sub(ups[i].at).Nanoseconds(), ups[i].blocks, ups[j].blocks, stream.name(), ups[i].key, j, i)
+					"uploads #%d (handle %d) and #%d (handle %d) (clock readings %d ns apart, entropy blocks read %d and %d, stream %s) both wrote object %q: upload #%d overwrote the object written by upload #%d",
+					i, ups[i].handle, j, ups[j].handle, ups[j].at.Sub(ups[i].at).Nanoseconds(), ups[i].blocks, ups[j].blocks, stream.name(), ups[i].key, j, i)
 			}
 		}
 		entropy := true
@@ -327,5 +348,14 @@ func TestVerif_C33_GCS(t *testing.T) {
 		}
 		shape := fmt.Sprintf("prefix-ok=%v len=%d", strings.HasPrefix(ups[0].key, wantPrefix), len(ups[0].key)-len(wantPrefix))
 		x.Outcome("n=%d prefix=%q partition=%v ext=%v entropy-read=%v %s", n, cfg.prefix, part, exts, entropy, shape)
-	})
+	}
+	// every interleaving of the two handles, sequences <=3 (quick) / <=4 (thorough)
+	venum.Explore(t, venum.Cfg{Name: "gcs-two-handle-sequences", Shardable: true, DevBound: -1, CheckDeterminism: true},
+		func(x *venum.X) { body(x, true, venum.QT(3, 4)) })
+	// thorough: one handle, sequences <=5 (the quick tier's single-handle sequences are the
+	// all-handle-0 assignments of the space above)
+	if venum.Thorough() {
+		venum.Explore(t, venum.Cfg{Name: "gcs-upload-sequences", Shardable: true, DevBound: -1, CheckDeterminism: true},
+			func(x *venum.X) { body(x, false, 5) })
+	}
 }
